@@ -117,3 +117,58 @@ func BlocksKey(bs []cons.BlockRec) []string {
 	}
 	return out
 }
+
+// RebuildWithBuiltFrames replaces every epoch's reference DAG by a copy whose frames were assigned by
+// IndexedLachesis.Build on a fresh generator instance (the way a real node creates events: Build, then
+// Process) instead of by the reference frame rule. On a correct implementation the copy is identical.
+// Sealing frames beyond what the rebuilt DAG decides are cut back; later epochs are dropped then.
+func RebuildWithBuiltFrames(sc *dagen.Scenario, cfg cons.Config) error {
+	for k, plan := range sc.Epochs {
+		old := plan.Ref
+		ids := old.IDs
+		ws := make([]pos.Weight, len(old.Weights))
+		for i, w := range old.Weights {
+			ws[i] = pos.Weight(w)
+		}
+		ref2 := graphref.New(old.Epoch, ids, ws, old.Cap)
+		gen, err := cons.New(cons.NewEvents(), cfg, idx.Epoch(old.Epoch), ref2.Validators(), nil)
+		if err != nil {
+			return err
+		}
+		for _, e := range old.Evs {
+			others := e.Parents
+			if e.SelfParent >= 0 {
+				others = e.Parents[1:]
+			}
+			e2 := ref2.Prepare(graphref.Proto{Creator: e.Creator, SelfParent: e.SelfParent, Others: others, Salt: e.Salt})
+			me := ref2.DagEvent(e2, 0)
+			if err := gen.L.Build(me); err != nil {
+				return fmt.Errorf("epoch %d: Build(e%d) failed: %v", old.Epoch, e.I, err)
+			}
+			frame := uint32(me.Frame())
+			if e.Frame != e.Hi {
+				// keep the generator's deliberately non-maximal (but allowed) claims when they are still in range
+				if e.Frame >= ref2.SPF(e2) && e.Frame <= frame {
+					frame = e.Frame
+				}
+			}
+			ref2.Commit(e2, frame)
+			if err := gen.Process(ref2.DagEvent(e2, frame)); err != nil {
+				return fmt.Errorf("epoch %d: the generator instance rejected e%d which it had built with frame %d: %v", old.Epoch, e.I, frame, err)
+			}
+			if len(gen.Crits) > 0 {
+				return fmt.Errorf("epoch %d: generator instance crit at e%d: %v", old.Epoch, e.I, gen.Crits)
+			}
+		}
+		plan.Ref = ref2
+		plan.Elect = ref2.Elect(0)
+		if plan.SealAt > len(plan.Elect.Blocks) {
+			plan.SealAt = len(plan.Elect.Blocks)
+		}
+		if plan.SealAt == 0 && k+1 < len(sc.Epochs) {
+			sc.Epochs = sc.Epochs[:k+1]
+			break
+		}
+	}
+	return nil
+}
